@@ -215,5 +215,5 @@ fn cmd_replica(args: &Args, seed: u64, dir: &std::path::Path, trace: &mut Trace,
         };
         histories.push((replica::gen_history(&mut rng, &g), file_every > 0 && i % file_every == 0));
     }
-    replica::run_histories(&w, seed, &histories, dir, trace, sum);
+    replica::run_histories(&w, seed, profile == "c08", &histories, dir, trace, sum);
 }
